@@ -36,6 +36,7 @@ type netSlot struct {
 	faults    int
 	emitOK    bool
 	crafted   bool
+	claimsObs string // getters of the claims that were signed, rendered at emit time
 }
 
 var netAlgProfile = func() [][2]string {
@@ -49,7 +50,9 @@ var netAlgProfile = func() [][2]string {
 }()
 
 func wrongKeyFor(r *Rng, spec SignerSpec) int {
-	switch r.Intn(6) {
+	switch r.Intn(7) {
+	case 6:
+		return -2 - r.Intn(2) // a malformed Ed25519 key
 	case 0:
 		return -1 // nil key
 	case 1:
@@ -311,6 +314,12 @@ func (netWorld) Exec(prop string, t *Trace) *Result {
 	led := ledger{}
 	slots := map[string]*netSlot{}
 	verifierEv := &psatoken.Evidence{} // a verifier that reuses one Evidence
+	type heldEvidence struct {
+		ev  *psatoken.Evidence
+		key int
+		at  int
+	}
+	var heldEv []heldEvidence
 	decodedStill := 0
 	roundTrips := 0
 	shape := ""
@@ -397,6 +406,11 @@ func (netWorld) Exec(prop string, t *Trace) *Result {
 			if genuine {
 				res.Probes["accepted_genuine"]++
 			}
+			if c03 && genuine && !damaged && ok && ev.Claims != nil && !s.crafted && s.claimsObs != "" {
+				if got := getterObs(ev.Claims); got != s.claimsObs {
+					res.violate("C03", "decoded-claims-differ-from-signed-claims", "", i, "the verifier's decoded Evidence exposes claims that differ from the ones the attester signed:\n signed:  %s\n exposed: %s", s.claimsObs, got)
+				}
+			}
 			if c03 && genuine && !damaged && ok && ev.Claims != nil {
 				// the claims exposed by a decoded Evidence are the decoding of the covered payload
 				dec, e := psatoken.DecodeClaimsFromCBOR(append([]byte{}, p.Payload...))
@@ -405,6 +419,12 @@ func (netWorld) Exec(prop string, t *Trace) *Result {
 				} else if a, b := getterObs(dec), getterObs(ev.Claims); a != b {
 					res.violate("C03", "decoded-claims-not-from-payload", "", i, "decoded Evidence exposes claims that are not the decoding of the signed payload:\n payload: %s\n exposed: %s", a, b)
 				}
+				// the verifier goes on to use (and annotate) its own copy of the claims
+				func() {
+					defer func() { _ = recover() }()
+					_ = ev.Claims.SetVSI("seen-by-verifier")
+					_ = ev.Claims.SetClientID(-7)
+				}()
 			}
 		} else {
 			if c03 && !damaged && s.emitOK && key == cfg.Attesters[s.att].Signer.Key {
@@ -454,7 +474,7 @@ func (netWorld) Exec(prop string, t *Trace) *Result {
 				}
 			}
 			res.logf("%d emit att=%d claims=%d mode=%d err=%s tok=%x", i, op.A, op.B, op.C%3, okOrErr(err), tok)
-			s := &netSlot{att: op.A, claims: op.B}
+			s := &netSlot{att: op.A, claims: op.B, claimsObs: getterObs(c)}
 			if op.S != "" {
 				slots[op.S] = s
 			}
@@ -489,6 +509,9 @@ func (netWorld) Exec(prop string, t *Trace) *Result {
 			}
 			if verr := e.Verify(pubKey(spec.Key)); verr != nil {
 				res.violate("C03", "signing-evidence-does-not-verify", "", i, "Verify on the signing Evidence failed: %v", verr)
+			} else if op.C%3 == 2 {
+				// a signing Evidence of its own: it must go on verifying whatever is signed or encoded later
+				heldEv = append(heldEv, heldEvidence{e, spec.Key, i})
 			}
 			// go-cose, called directly with empty external data, must agree
 			var m cose.Sign1Message
@@ -605,6 +628,18 @@ func (netWorld) Exec(prop string, t *Trace) *Result {
 			res.Probes["bitsweep_tokens"]++
 			res.Probes["bitsweep_flips"] += n
 			res.logf("%d bitsweep %d flips", i, n)
+		}
+	}
+	if c03 {
+		for _, h := range heldEv {
+			res.Evals++
+			if verr := h.ev.Verify(pubKey(h.key)); verr != nil {
+				res.violate("C03", "signing-evidence-stops-verifying", "", len(t.Ops)-1, "the Evidence that signed at step %d verified then, but no longer does after later signing / encoding activity: %v", h.at, verr)
+				break
+			}
+		}
+		if len(heldEv) > 1 {
+			res.Probes["held_signing_evidences_reverified"]++
 		}
 	}
 	if c02 {
